@@ -1,0 +1,86 @@
+// SPDX-License-Identifier: CC0-1.0
+
+//! Verification hooks (cargo feature `verif-hooks`, off by default).
+//!
+//! Scheduling points for an external controlled scheduler. A scheduling point
+//! does nothing unless a hook is installed *and* the current thread has been
+//! registered as managed. It never panics and never allocates, because it is
+//! reached from `Drop` implementations, possibly during unwinding.
+
+use std::cell::Cell;
+use std::sync::atomic::{AtomicUsize, Ordering};
+use std::sync::{Mutex, MutexGuard, TryLockError};
+
+/// Where in the library a scheduling point sits.
+#[derive(Copy, Clone, Debug, PartialEq, Eq, Hash)]
+pub enum SchedPoint {
+    /// About to take the lock of a type-inference context
+    ContextLock,
+    /// The lock of a type-inference context is held by another thread
+    ContextLockSpin,
+    /// About to draw a fresh type-variable name from the global counter
+    NewName,
+    /// About to read a thread-local precomputed type
+    Precomputed,
+    /// Inside the iterative `Drop` of a node, before releasing one child reference
+    NodeDrop,
+    /// Inside the iterative `Drop` of an incomplete type, before releasing one child reference
+    IncompleteDrop,
+    /// Top of the Bit Machine main loop
+    MachineStep,
+    /// Before the call into a C jet (input frame marshalled)
+    JetCall,
+    /// After the call into a C jet (output frame not yet copied back)
+    JetReturn,
+}
+
+static HOOK: AtomicUsize = AtomicUsize::new(0);
+
+thread_local! {
+    static MANAGED: Cell<bool> = const { Cell::new(false) };
+}
+
+/// Installs (or, with `None`, removes) the process-wide scheduling hook.
+pub fn set_sched_hook(hook: Option<fn(SchedPoint)>) {
+    HOOK.store(hook.map(|f| f as usize).unwrap_or(0), Ordering::SeqCst);
+}
+
+/// Marks the current thread as managed (or not) by the installed hook.
+pub fn manage_current_thread(managed: bool) {
+    let _ = MANAGED.try_with(|m| m.set(managed));
+}
+
+/// A scheduling point.
+#[inline]
+pub(crate) fn sched_point(kind: SchedPoint) {
+    let managed = MANAGED.try_with(|m| m.get()).unwrap_or(false);
+    if !managed {
+        return;
+    }
+    let raw = HOOK.load(Ordering::SeqCst);
+    if raw != 0 {
+        // SAFETY: the only non-zero values ever stored are `fn(SchedPoint)` pointers
+        let hook: fn(SchedPoint) = unsafe { std::mem::transmute::<usize, fn(SchedPoint)>(raw) };
+        hook(kind);
+    }
+}
+
+/// Locks a mutex, making the wait visible to the scheduler: instead of blocking
+/// in the OS, a contended lock spins through [`SchedPoint::ContextLockSpin`].
+pub(crate) fn lock_with_sched<T>(mutex: &Mutex<T>) -> MutexGuard<'_, T> {
+    sched_point(SchedPoint::ContextLock);
+    loop {
+        match mutex.try_lock() {
+            Ok(guard) => return guard,
+            Err(TryLockError::Poisoned(e)) => panic!("{}", e),
+            Err(TryLockError::WouldBlock) => {
+                let managed = MANAGED.try_with(|m| m.get()).unwrap_or(false);
+                if managed && HOOK.load(Ordering::SeqCst) != 0 {
+                    sched_point(SchedPoint::ContextLockSpin);
+                } else {
+                    return mutex.lock().unwrap();
+                }
+            }
+        }
+    }
+}
